@@ -108,7 +108,8 @@ def rwBin (F : FloatOps R) (q : Quirks) (lt gt : List Ty) (op : BinOp) (a b : Ex
   | .lit x, .lit y =>
     -- `0 + X` is tested before the constant case
     if op == .add && isZeroLit a && (ty b == .int || (ty b == .real && q.foldAddZeroReal)) then b
-    else if op == .sub && isZeroLit a then (match foldUn F .neg y with | some v => .lit v | none => .un .neg b)
+    else if op == .sub && isZeroLit a && (q.zeroMinusNeg || ty b != .real) then
+      (match foldUn F .neg y with | some v => .lit v | none => .un .neg b)
     else match foldBin F op x y with
       | some v => .lit v
       | none =>
@@ -123,7 +124,7 @@ def rwBin (F : FloatOps R) (q : Quirks) (lt gt : List Ty) (op : BinOp) (a b : Ex
               && ty b != .str && ty b != .mixed then .bin .add b a          -- swap: constant to the right
       else if isZeroLit b && !(isLit a) && (ty a == .int || (ty a == .real && q.foldAddZeroReal)) then a
       else dflt
-    | .sub => if isZeroLit a then .un .neg b else dflt
+    | .sub => if isZeroLit a && (q.zeroMinusNeg || (ty b != .real && ty b != .mixed)) then .un .neg b else dflt
     | .mul =>
       if (match a with | .lit (.int _) | .lit (.real _) => true | _ => false) then .bin .mul b a else dflt
     | .band | .bor | .bxor =>
